@@ -153,27 +153,24 @@ def check(ctx, run):
         run.ob("R3", "swap(%d, %d) exchanges exactly those two entries" % (ia, ib), sw.site, got == (100 + ib, 100 + ia) and not others, witness={"after": got})
     sh = prog.fn(ARR + "::shuffle")
     run.analysed(sh)
-    swc = [c for c in sh.calls() if prog.callee_name(sh, c) == ARR + "::swap"]
-    ini = {k: render(sh, v, keep_explicit_casts=False) for k, v in local_inits(sh).items()}
-    ok = len(swc) == 1
-    w = {"inits": ini}
-    if ok:
-        i_, j_ = [render(sh, x) for x in sh.args(swc[0])]
-        w["swap"] = (i_, j_)
-        jexpr = ini.get(j_, "")
-        ok = ini.get(i_) == "(count_ - 1)" and re.match(r"^\(PlatformSpecificRand\(\) %% \(%s \+ 1\)\)$" % i_, jexpr) is not None
-        hd, _ = loop_head_and_body(sh, lambda k: i_ in k)
-        cond = atom(sh, sh.nodes[hd["cond"]]) if hd else None
-        w["loop"] = cond
-        # i >= 1  normalises to !(i < 1)
-        ok = ok and cond in (("(%s < 1)" % i_, False), ("(0 < %s)" % i_, True))
-        steps = [render(sh, n) for n in sh.walk() if n["k"] == "UnaryOperator" and n.get("op") in ("++", "--") and render(sh, n["c"][0]) == i_]
-        ok = ok and steps in (["--%s" % i_], ["%s--" % i_])
-        # count_ == 0 guard precedes the count_ - 1
-        g0 = [p for p in enumerate_paths(sh) if p.val().get("count_") is False or p.val().get("(0 == count_)") is True]
-        ok = ok and all(not [c for c in path_calls(prog, sh, p) if prog.callee_name(sh, c) == ARR + "::swap"] for p in g0) and bool(g0)
-    run.ob("R3", "shuffle: i from count_-1 down to 1, j = rand %% (i+1), swap(i, j), empty array guarded", sh.site, ok, witness=w,
-           what="" if ok else "a drawn index can fall outside [0, count_) or the walk does not cover the array")
+    # fold shuffle for several array sizes and random streams: the swaps must be (i, r % (i+1)) for i = n-1 .. 1
+    for n, stream in itertools.product((0, 1, 2, 5), ([0] * 8, [7, 123456789, 2147483647, 3, 1, 0, 99, 4], [2147483647] * 8)):
+        ev = Evaluator(prog, sh, env={"count_": n, sh.params[0]["name"]: 42})
+        it = iter(stream)
+        swaps, relinks = [], []
+        ev.calls["PlatformSpecificRand"] = lambda it=it: next(it)
+        ev.calls["PlatformSpecificSrand"] = lambda *a: 0
+        ev.calls[ARR + "::swap"] = lambda a_, b_, swaps=swaps: (swaps.append((a_, b_)), 0)[1]
+        ev.calls[ARR + "::relinkTestsInOrder"] = lambda swaps=swaps, relinks=relinks: (relinks.append(len(swaps)), 0)[1]
+        try:
+            ev.run_blocks(sh.entry, max_steps=400)
+            why = ""
+        except Unknown as u:
+            why = "cannot fold: %s" % u
+        want = [(i, stream[k] % (i + 1)) for k, i in enumerate(range(n - 1, 0, -1))]
+        ok = not why and swaps == want and all(0 <= a_ < max(n, 1) and 0 <= b_ < max(n, 1) for a_, b_ in swaps) and (relinks == [len(want)] if n else relinks in ([], [0]))
+        run.ob("R3", "shuffle of %d entries with random stream %s" % (n, stream[:3]), sh.site, ok, witness={"swaps": swaps, "relinked_after_swaps": relinks},
+               what=why or ("" if ok else "swaps %s (expected %s), relink after %s swaps: a drawn index can fall outside [0, count_), the walk does not cover the array, or the list is not rebuilt" % (swaps, want, relinks)))
     for fn_ in (sh, prog.fn(ARR + "::reverse")):
         run.analysed(fn_)
         loops = loop_blocks(fn_)
